@@ -602,3 +602,438 @@ Proof.
     assert (n = 1 + n' /\ o' = o) as (Hn' & ->) by (split; congruence).
     rewrite (Hrec 1 ltac:(lia) _ Er Hn'). cbn [rbind]. rewrite Hn'. reflexivity.
 Qed.
+
+Lemma mlc_loop_pos : forall fuel l n ok sl, mlc_loop fuel l = Ok (n, ok, sl) -> 0 <= n /\ (ok = true -> 2 <= n).
+Proof.
+  induction fuel as [|fuel IH]; intros l n ok sl H; [discriminate|]. cbn [mlc_loop] in H. crunch H;
+    try (injection H as <- <- <-; split; [lia|try lia; congruence]);
+    match goal with
+    | Er : mlc_loop fuel _ = Ok (?z, ?b0, ?b1), El : lt1 _ = Ok ?t, H : Ok (?k + ?z, ?b0, _) = Ok (n, ok, sl) |- _ =>
+        destruct (IH _ _ _ _ Er); pose proof (lt1_nonneg _ _ El);
+        assert (n = k + z /\ ok = b0) as (-> & ->) by (split; congruence); lia
+    end.
+Qed.
+
+Lemma mlc_loop_restrict : forall fuel T R n sl, R <> [] ->
+  mlc_loop fuel (T ++ R) = Ok (n, true, sl) -> n = len T ->
+  forall fuel', (length T < fuel')%nat -> mlc_loop fuel' (T ++ [0]) = Ok (n, true, sl).
+Proof.
+  induction fuel as [|fuel IH]; intros T R n sl HR H Hn fuel' Hf; [discriminate|].
+  destruct fuel' as [|fuel']; [lia|].
+  destruct (mlc_loop_pos _ _ _ _ _ H) as (_ & Hpos). specialize (Hpos eq_refl).
+  destruct T as [|c [|c1 T]]; try (cbn in Hn; lia).
+  cbn [mlc_loop app] in *. rewrite pkl_cons_0, pkl_1 in H |- *. cbn [rbind] in *. rewrite !len_cons in Hn.
+  pose proof (len_nonneg T) as HT.
+  match type of H with rbind ?e _ = _ => destruct e as [cl| |] eqn:Es; cbn [rbind] in H; try discriminate end.
+  destruct cl; [assumption|].
+  rewrite at_endl_app2 in H |- *. rewrite andb_false_r in H |- *.
+  change (c :: c1 :: T ++ R) with ((c :: c1 :: T) ++ R) in H. change (c :: c1 :: T ++ [0]) with ((c :: c1 :: T) ++ [0]).
+  destruct (lt1 ((c :: c1 :: T) ++ R)) as [t| |] eqn:Et; cbn [rbind] in H; try discriminate.
+  pose proof (lt1_nonneg _ _ Et) as Ht0.
+  assert (Hrec : forall k n' sl', 1 <= k -> mlc_loop fuel (skipz k ((c :: c1 :: T) ++ R)) = Ok (n', true, sl') ->
+            n = k + n' -> mlc_loop fuel' (skipz k ((c :: c1 :: T) ++ [0])) = Ok (n', true, sl')).
+  { intros k n' sl' Hk Er Hn'. destruct (mlc_loop_pos _ _ _ _ _ Er) as (_ & Hp'). specialize (Hp' eq_refl).
+    rewrite skipz_app_le in Er |- * by (rewrite !len_cons; lia).
+    apply (IH _ _ _ _ HR Er).
+    - rewrite len_skipz by (rewrite !len_cons; lia). rewrite !len_cons. lia.
+    - pose proof (length_skipz_lt k (c :: c1 :: T) ltac:(lia) ltac:(discriminate)). cbn [length] in *. lia. }
+  destruct (Z.ltb_spec 0 t) as [Ht|Ht].
+  - destruct (mlc_loop fuel (skipz t ((c :: c1 :: T) ++ R))) as [[[n' ok'] sl']| |] eqn:Er; cbn [rbind] in H; try discriminate.
+    assert (n = t + n' /\ ok' = true /\ sl = true) as (Hn' & -> & ->) by (repeat split; congruence).
+    destruct (mlc_loop_pos _ _ _ _ _ Er) as (_ & Hp'). specialize (Hp' eq_refl).
+    rewrite (lt1_local _ _ _ HR Et) by (rewrite !len_cons; lia). cbn [rbind]. replace (0 <? t) with true by lia.
+    rewrite (Hrec t n' sl' ltac:(lia) Er Hn'). cbn [rbind]. rewrite Hn'. reflexivity.
+  - assert (t = 0) by lia. subst t. rewrite (lt1_stops _ _ Et). cbn [rbind]. change (0 <? 0) with false. cbv iota.
+    destruct (mlc_loop fuel (skipz 1 ((c :: c1 :: T) ++ R))) as [[[n' ok'] sl']| |] eqn:Er; cbn [rbind] in H; try discriminate.
+    assert (n = 1 + n' /\ ok' = true /\ sl = sl') as (Hn' & -> & ->) by (repeat split; congruence).
+    rewrite (Hrec 1 n' sl' ltac:(lia) Er Hn'). cbn [rbind]. rewrite Hn'. reflexivity.
+Qed.
+
+(* --- single-line comments ------------------------------------------------------------------------ *)
+(* no multi-byte sequence is cut off by the end of the text (true of every valid UTF-8 string) *)
+Fixpoint no_trunc (l : list Z) : bool :=
+  match l with
+  | [] => true
+  | c :: t =>
+      (if c <? 192 then true else if c <? 224 then 1 <=? len t else if c <? 240 then 2 <=? len t else 3 <=? len t)
+      && no_trunc t
+  end.
+
+Lemma peek_rune_len c t r n : peek_rune (c :: t) = Ok (r, n) ->
+  (c < 224 -> n <= 2) /\ (c < 240 -> n <= 3) /\ n <= 4.
+Proof.
+  intros H. unfold peek_rune in H. rewrite pkl_cons_0 in H. cbn [rbind] in H.
+  crunch H; injection H as _ <-; lia.
+Qed.
+
+Lemma slc_loop_nonneg : forall fuel l n, slc_loop fuel l = Ok n -> 0 <= n.
+Proof.
+  induction fuel as [|fuel IH]; intros l n H; [discriminate|]. cbn [slc_loop] in H. crunch H;
+    try (injection H as <-; lia).
+  specialize (IH _ _ E1). assert (n = 1 + a1) by congruence. lia.
+Qed.
+
+Lemma slc_loop_restrict : forall fuel T R, R <> [] -> no_trunc T = true ->
+  slc_loop fuel (T ++ R) = Ok (len T) ->
+  forall fuel', (length T < fuel')%nat -> slc_loop fuel' (T ++ [0]) = Ok (len T).
+Proof.
+  induction fuel as [|fuel IH]; intros T R HR Hnt H fuel' Hf; [discriminate|].
+  destruct fuel' as [|fuel']; [lia|].
+  destruct T as [|c T]; [reflexivity|].
+  cbn [slc_loop app] in *. rewrite pkl_cons_0 in H |- *. cbn [rbind] in *. rewrite len_cons in *.
+  pose proof (len_nonneg T) as HT.
+  cbn [no_trunc] in Hnt. apply andb_true_iff in Hnt. destruct Hnt as (Hc & Hnt).
+  destruct ((c =? 13) || (c =? 10)) eqn:Ecr; cbn [orb] in *; [assert (1 + len T = 0) by congruence; lia|].
+  destruct ((c =? 0) && at_endl (c :: T ++ R)); [assert (1 + len T = 0) by congruence; lia|].
+  replace ((c =? 0) && at_endl (c :: T ++ [0])) with false by (destruct T; cbn [app at_endl]; rewrite andb_false_r; reflexivity).
+  match type of H with rbind ?e _ = _ => destruct e as [st| |] eqn:Es; cbn [rbind] in H; try discriminate end.
+  destruct st; [assert (1 + len T = 0) by congruence; lia|].
+  assert (Es' : (if 192 <=? c then ' (r, _) <-- peek_rune (c :: T ++ [0]);; Ok ((r =? 8232) || (r =? 8233)) else Ok false) = Ok false).
+  { destruct (192 <=? c) eqn:E192; [|reflexivity].
+    destruct (peek_rune (c :: T ++ R)) as [[r n]| |] eqn:Er; cbn [rbind] in Es; try discriminate.
+    destruct (peek_rune_len _ _ _ _ Er) as (L2 & L3 & L4).
+    change (c :: T ++ R) with ((c :: T) ++ R) in Er. change (c :: T ++ [0]) with ((c :: T) ++ [0]).
+    rewrite (peek_rune_local _ _ _ _ Er); [exact Es| |assumption].
+    rewrite len_cons. replace (c <? 192) with false in Hc by lia.
+    destruct (c <? 224) eqn:E224; [lia|]. destruct (c <? 240) eqn:E240; lia. }
+  rewrite Es'. cbn [rbind]. rewrite skipz_1_cons in H |- *.
+  destruct (slc_loop fuel (T ++ R)) as [n'| |] eqn:Er; cbn [rbind] in H; try discriminate.
+  assert (1 + n' = 1 + len T) by congruence. assert (n' = len T) by lia. subst n'.
+  rewrite (IH _ _ HR Hnt Er); [reflexivity|cbn [length] in Hf; lia].
+Qed.
+
+Lemma no_trunc_skipz n T : no_trunc T = true -> 0 <= n -> no_trunc (skipz n T) = true.
+Proof.
+  intros H Hn. revert T H. 
+  assert (G : forall k T, no_trunc T = true -> no_trunc (skipn k T) = true).
+  { induction k as [|k IH]; intros T H; [assumption|]. destruct T as [|c T]; [reflexivity|].
+    cbn [skipn]. apply IH. cbn [no_trunc] in H. apply andb_true_iff in H. apply H. }
+  intros T H. apply G. assumption.
+Qed.
+
+Lemma slc_restrict T R : R <> [] -> no_trunc T = true -> slc (T ++ R) = Ok (len T) -> slc (T ++ [0]) = Ok (len T).
+Proof.
+  intros HR Hnt H. unfold slc in *. apply (slc_loop_restrict _ _ _ HR Hnt H).
+  rewrite app_length. cbn [length]. lia.
+Qed.
+
+(* --- operators -------------------------------------------------------------------------------------- *)
+Ltac pick :=
+  match goal with
+  | |- context [if ?b then _ else _] =>
+      let E := fresh "Ep" in destruct b eqn:E; [try (exfalso; lia)|try (exfalso; lia)]
+  end.
+
+Lemma op_restrict T R ty : R <> [] -> op (T ++ R) = Ok (len T, ty) -> op (T ++ [0]) = Ok (len T, ty).
+Proof.
+  intros HR H. destruct R as [|r0 R]; [congruence|]. clear HR.
+  destruct T as [|t0 [|t1 [|t2 [|t3 [|t4 T]]]]]; cbn [app] in *; rewrite ?len_cons in *;
+    change (len (@nil Z)) with 0 in *; unfold op in H;
+    rewrite ?pkl_cons_0, ?pkl_1, ?pkl_2, ?pkl_3 in H; cbn [rbind] in H.
+  - crunch H; exfalso; match type of H with Ok (?a, _) = Ok (?b, _) => assert (a = b) by congruence; lia end.
+  - crunch H; try (exfalso; match type of H with Ok (?a, _) = Ok (?b, _) => assert (a = b) by congruence; lia end);
+      unfold op; rewrite ?pkl_cons_0, ?pkl_1; cbn [rbind]; repeat (pick; cbn [rbind]); congruence.
+  - crunch H; try (exfalso; match type of H with Ok (?a, _) = Ok (?b, _) => assert (a = b) by congruence; lia end);
+      unfold op; rewrite ?pkl_cons_0, ?pkl_1, ?pkl_2; cbn [rbind]; repeat (pick; cbn [rbind]); congruence.
+  - crunch H; try (exfalso; match type of H with Ok (?a, _) = Ok (?b, _) => assert (a = b) by congruence; lia end);
+      unfold op; rewrite ?pkl_cons_0, ?pkl_1, ?pkl_2, ?pkl_3; cbn [rbind]; repeat (pick; cbn [rbind]); congruence.
+  - crunch H; try (exfalso; match type of H with Ok (?a, _) = Ok (?b, _) => assert (a = b) by congruence; lia end);
+      unfold op; rewrite ?pkl_cons_0, ?pkl_1, ?pkl_2, ?pkl_3; cbn [rbind]; repeat (pick; cbn [rbind]); congruence.
+  - pose proof (len_nonneg T). crunch H; exfalso; match type of H with Ok (?a, _) = Ok (?b, _) => assert (a = b) by congruence; lia end.
+Qed.
+
+(* --- numeric literals ---------------------------------------------------------------------------- *)
+Lemma dos_stop0 f : is_byte_step f -> stop0 (dig_or_sep f).
+Proof. intros Hf. unfold stop0, dig_or_sep, num_sep. rewrite (bs_zero f _ Hf). reflexivity. Qed.
+
+(* the digit loop consumed the rest of T *)
+Lemma dos_loop_all f T R k : is_byte_step f -> R <> [] -> 0 <= k <= len T ->
+  repl (dig_or_sep f) (skipz k (T ++ R)) = Ok (len T - k) ->
+  repl (dig_or_sep f) (skipz k (T ++ [0])) = Ok (len T - k).
+Proof.
+  intros Hf HR Hk H. unfold repl in *. rewrite skipz_app_le in * by lia.
+  replace (len T - k) with (len (skipz k T)) in * by (rewrite len_skipz by lia; reflexivity).
+  apply (rep_restrict_all _ (dos_local f Hf) (dos_stop0 f Hf) (dos_nonneg f Hf) _ _ _ HR H).
+  rewrite app_length. cbn [length]. lia.
+Qed.
+
+(* the digit loop stopped inside T or at its end *)
+Lemma dos_loop_part f T R k m : is_byte_step f -> R <> [] -> 0 <= k <= len T ->
+  repl (dig_or_sep f) (skipz k (T ++ R)) = Ok m -> k + m <= len T ->
+  repl (dig_or_sep f) (skipz k (T ++ [0])) = Ok m.
+Proof.
+  intros Hf HR Hk H Hm. unfold repl in *. rewrite skipz_app_le in * by lia.
+  apply (rep_restrict_part _ (dos_local f Hf) (dos_stops f Hf) (dos_nonneg f Hf) _ _ _ _ HR H).
+  - rewrite len_skipz by lia. lia.
+  - rewrite app_length. cbn [length]. lia.
+Qed.
+
+Lemma dos_loop_nonneg f l m : is_byte_step f -> repl (dig_or_sep f) l = Ok m -> 0 <= m.
+Proof. intros Hf H. eapply rep_nonneg; [apply dos_nonneg; eassumption|exact H]. Qed.
+
+(* a byte step at position k of T ++ X *)
+Lemma bs_at f T X k : is_byte_step f -> 0 <= k < len T -> f (skipz k (T ++ X)) = f (skipz k (T ++ [0])).
+Proof.
+  intros Hf Hk. rewrite !skipz_app_le by lia.
+  assert (Hne : skipz k T <> []) by (apply len_pos_nonempty; rewrite len_skipz by lia; lia).
+  destruct (skipz k T) as [|c t]; [congruence|]. cbn [app]. apply bs_head. assumption.
+Qed.
+
+Lemma bs_at_end f T k : is_byte_step f -> k = len T -> f (skipz k (T ++ [0])) = Ok 0.
+Proof. intros Hf ->. rewrite skipz_app_exact. apply bs_zero. assumption. Qed.
+
+Lemma bs_pos_in f T R k : is_byte_step f -> 0 <= k -> f (skipz k (T ++ R)) = Ok 1 -> True.
+Proof. auto. Qed.
+
+Lemma num_exp_restrict T R k c n ty e : R <> [] -> 0 <= k <= len T ->
+  pkl (T ++ R) k = Ok c ->
+  num_exp (T ++ R) k c = Ok (n, ty, e) -> n = len T -> ty <> ErrorToken ->
+  exists c', pkl (T ++ [0]) k = Ok c' /\ num_exp (T ++ [0]) k c' = Ok (n, ty, e) /\ (k < len T -> c' = c).
+Proof.
+  intros HR Hk Hc H Hn Hty. unfold num_exp in H.
+  destruct (Z.eq_dec k (len T)) as [Hkl|Hkl].
+  - (* the exponent marker would lie outside T *)
+    exists 0. split; [apply pkl_at_end; assumption|]. split; [|lia].
+    destruct ((c =? 101) || (c =? 69)).
+    + exfalso. crunch H; [apply Hty; congruence|].
+      pose proof (dos_loop_nonneg _ _ _ digit1_bs E1). assert (n = k + 1 + (if (a =? 43) || (a =? 45) then 1 else 0) + 1 + a1) by congruence.
+      destruct ((a =? 43) || (a =? 45)); lia.
+    + unfold num_exp. cbn [Z.eqb orb]. exact H.
+  - exists c. split; [apply (pkl_pre _ _ _ _ Hc); lia|]. split; [|auto].
+    unfold num_exp. destruct ((c =? 101) || (c =? 69)); [|exact H].
+    rewrite pkl_skipz in H |- * by lia. replace (k + 1 + 0) with (k + 1) in * by lia.
+    destruct (pkl (T ++ R) (k + 1)) as [c1| |] eqn:E1; cbn [rbind] in H; try discriminate.
+    set (s := if (c1 =? 43) || (c1 =? 45) then 1 else 0) in *.
+    assert (Hs : 0 <= s <= 1) by (subst s; destruct ((c1 =? 43) || (c1 =? 45)); lia).
+    rewrite skipz_skipz in H by lia.
+    destruct (digit1 (skipz (k + 1 + s) (T ++ R))) as [d| |] eqn:Ed; cbn [rbind] in H; try discriminate.
+    destruct (Z.eqb_spec d 0) as [Hd|Hd]; [exfalso; apply Hty; congruence|].
+    rewrite skipz_skipz in H by lia.
+    destruct (repl (dig_or_sep digit1) (skipz (k + 1 + s + 1) (T ++ R))) as [m| |] eqn:Em; cbn [rbind] in H; try discriminate.
+    pose proof (dos_loop_nonneg _ _ _ digit1_bs Em) as Hm0.
+    assert (Hnn : n = k + 1 + s + 1 + m) by congruence.
+    xfer E1. fold s. rewrite !skipz_skipz by lia.
+    rewrite <- (bs_at digit1 T R (k + 1 + s) digit1_bs) by lia. rewrite Ed. cbn [rbind].
+    replace (d =? 0) with false by lia.
+    assert (Hm : m = len T - (k + 1 + s + 1)) by lia. rewrite Hm in Em.
+    rewrite (dos_loop_all digit1 T R (k + 1 + s + 1) digit1_bs HR ltac:(lia) Em). cbn [rbind].
+    rewrite <- H. f_equal. f_equal. f_equal. lia.
+Qed.
+
+Lemma num_exp_ge l k c n ty e : num_exp l k c = Ok (n, ty, e) -> k <= n.
+Proof.
+  intros H. unfold num_exp in H. crunch H.
+  - assert (n = k + 1 + (if (a =? 43) || (a =? 45) then 1 else 0)) by congruence. destruct ((a =? 43) || (a =? 45)); lia.
+  - pose proof (dos_loop_nonneg _ _ _ digit1_bs E1).
+    assert (n = k + 1 + (if (a =? 43) || (a =? 45) then 1 else 0) + 1 + a1) by congruence. destruct ((a =? 43) || (a =? 45)); lia.
+  - assert (n = k) by congruence. lia.
+Qed.
+
+Lemma num_tail_ge f l k n ty e : num_tail f l k = Ok (n, ty, e) -> k <= n.
+Proof.
+  intros H. unfold num_tail in H. crunch H; try (assert (n = k + 1 - 1 \/ n = k + 1 \/ n = k) by (injection H; lia); lia).
+  - pose proof (dos_loop_nonneg _ _ _ digit1_bs E1). apply num_exp_ge in H. lia.
+  - apply num_exp_ge in H. lia.
+  - apply num_exp_ge in H. lia.
+Qed.
+
+Lemma num_tail_restrict first T R k n ty e : R <> [] -> 0 <= k <= len T ->
+  num_tail first (T ++ R) k = Ok (n, ty, e) -> n = len T -> ty <> ErrorToken ->
+  num_tail first (T ++ [0]) k = Ok (n, ty, e).
+Proof.
+  intros HR Hk H Hn Hty. unfold num_tail in H |- *. rewrite pkl_skipz in H |- * by lia.
+  replace (k + 0) with k in * by lia.
+  destruct (pkl (T ++ R) k) as [c| |] eqn:Ec; cbn [rbind] in H; try discriminate.
+  destruct (Z.eq_dec k (len T)) as [Hkl|Hkl].
+  - (* nothing of the tail lies in T *)
+    rewrite pkl_at_end by assumption. cbn [rbind]. change (0 =? 46) with false. change (0 =? 110) with false.
+    change (negb (0 =? 101) && negb (0 =? 69)) with true. cbv iota.
+    destruct (c =? 46) eqn:E46.
+    { exfalso. crunch H.
+      - pose proof (dos_loop_nonneg _ _ _ digit1_bs E0). apply num_exp_ge in H. lia.
+      - apply Hty. congruence.
+      - apply num_exp_ge in H. lia. }
+    destruct (c =? 110); [exfalso; assert (n = k + 1) by congruence; lia|].
+    destruct (negb (c =? 101) && negb (c =? 69)) eqn:Ee; [exact H|].
+    exfalso. unfold num_exp in H. replace ((c =? 101) || (c =? 69)) with true in H by lia.
+    crunch H; [apply Hty; congruence|].
+    pose proof (dos_loop_nonneg _ _ _ digit1_bs E1).
+    assert (n = k + 1 + (if (a =? 43) || (a =? 45) then 1 else 0) + 1 + a1) by congruence. destruct ((a =? 43) || (a =? 45)); lia.
+  - xfer Ec. destruct (c =? 46) eqn:E46.
+    + rewrite skipz_skipz in H |- * by lia.
+      destruct (digit1 (skipz (k + 1) (T ++ R))) as [d| |] eqn:Ed; cbn [rbind] in H; try discriminate.
+      pose proof (bs_bit _ digit1_bs _ _ Ed) as Hd.
+      destruct (Z.eq_dec (k + 1) (len T)) as [Hk1|Hk1].
+      * (* "." is the last byte of T *)
+        rewrite (bs_at_end digit1 T (k + 1) digit1_bs Hk1). cbn [rbind]. change (0 <? 0) with false. cbv iota.
+        destruct (0 <? d) eqn:Bd.
+        { exfalso. crunch H. pose proof (dos_loop_nonneg _ _ _ digit1_bs E). apply num_exp_ge in H. lia. }
+        destruct (first =? 46); [exfalso; apply Hty; congruence|].
+        rewrite pkl_skipz in H |- * by lia. replace (k + 1 + 0) with (k + 1) in * by lia.
+        destruct (pkl (T ++ R) (k + 1)) as [c2| |] eqn:E2; cbn [rbind] in H; try discriminate.
+        destruct (num_exp_restrict T R (k + 1) c2 n ty e HR ltac:(lia) E2 H Hn Hty) as (c' & Hc' & He' & _).
+        rewrite Hc'. cbn [rbind]. exact He'.
+      * rewrite <- (bs_at digit1 T R (k + 1) digit1_bs) by lia. rewrite Ed. cbn [rbind].
+        destruct (0 <? d) eqn:Bd.
+        -- rewrite skipz_skipz in H |- * by lia.
+           destruct (repl (dig_or_sep digit1) (skipz (k + 1 + 1) (T ++ R))) as [m| |] eqn:Em; cbn [rbind] in H; try discriminate.
+           pose proof (dos_loop_nonneg _ _ _ digit1_bs Em) as Hm0.
+           rewrite pkl_skipz in H by lia.
+           destruct (pkl (T ++ R) (k + 1 + 1 + m + 0)) as [c2| |] eqn:E2; cbn [rbind] in H; try discriminate.
+           pose proof (num_exp_ge _ _ _ _ _ _ H) as Hge.
+           rewrite (dos_loop_part digit1 T R (k + 1 + 1) m digit1_bs HR ltac:(lia) Em) by lia. cbn [rbind].
+           rewrite pkl_skipz by lia.
+           replace (k + 1 + 1 + m + 0) with (k + 1 + 1 + m) in * by lia.
+           destruct (num_exp_restrict T R (k + 1 + 1 + m) c2 n ty e HR ltac:(lia) E2 H Hn Hty) as (c' & Hc' & He' & _).
+           rewrite Hc'. cbn [rbind]. exact He'.
+        -- destruct (first =? 46); [exfalso; apply Hty; congruence|].
+           rewrite pkl_skipz in H |- * by lia. replace (k + 1 + 0) with (k + 1) in * by lia.
+           destruct (pkl (T ++ R) (k + 1)) as [c2| |] eqn:E2; cbn [rbind] in H; try discriminate.
+           destruct (num_exp_restrict T R (k + 1) c2 n ty e HR ltac:(lia) E2 H Hn Hty) as (c' & Hc' & He' & _).
+           rewrite Hc'. cbn [rbind]. exact He'.
+    + destruct (c =? 110); [exact H|].
+      destruct (negb (c =? 101) && negb (c =? 69)); [exact H|].
+      destruct (num_exp_restrict T R k c n ty e HR ltac:(lia) Ec H Hn Hty) as (c' & Hc' & He' & Hcc).
+      rewrite <- (Hcc ltac:(lia)). exact He'.
+Qed.
+
+Lemma num_radix_restrict f t T R n ty e : is_byte_step f -> R <> [] -> 2 <= len T ->
+  num_radix f t (T ++ R) = Ok (n, ty, e) -> n = len T ->
+  num_radix f t (T ++ [0]) = Ok (n, ty, e).
+Proof.
+  intros Hf HR H2 H Hn. unfold num_radix in H |- *.
+  destruct (f (skipz 2 (T ++ R))) as [h| |] eqn:Eh; cbn [rbind] in H; try discriminate.
+  pose proof (bs_bit f Hf _ _ Eh) as Hh.
+  destruct (Z.ltb_spec 0 h) as [Hh0|Hh0]; [|exfalso; assert (n = 1) by congruence; lia].
+  rewrite skipz_skipz in H |- * by lia.
+  destruct (repl (dig_or_sep f) (skipz (2 + 1) (T ++ R))) as [m| |] eqn:Em; cbn [rbind] in H; try discriminate.
+  pose proof (dos_loop_nonneg _ _ _ Hf Em) as Hm0.
+  rewrite !pkl_skipz in H by lia. replace (2 + (1 + m + 0)) with (2 + 1 + m) in H by lia.
+  destruct (pkl (T ++ R) (2 + 1 + m)) as [c| |] eqn:Ec; cbn [rbind] in H; try discriminate.
+  assert (Hnn : n = 2 + 1 + m + (if c =? 110 then 1 else 0)) by congruence.
+  assert (H3 : 2 < len T) by (destruct (c =? 110); lia).
+  rewrite <- (bs_at f T R 2 Hf) by lia. rewrite Eh. cbn [rbind]. replace (0 <? h) with true by lia.
+  rewrite (dos_loop_part f T R (2 + 1) m Hf HR ltac:(lia) Em) by (destruct (c =? 110); lia). cbn [rbind].
+  rewrite !pkl_skipz by lia. replace (2 + (1 + m + 0)) with (2 + 1 + m) by lia.
+  destruct (c =? 110) eqn:E110.
+  - xfer Ec. rewrite E110. exact H.
+  - rewrite pkl_at_end by lia. cbn [rbind]. change (0 =? 110) with false. cbv iota. rewrite <- H. reflexivity.
+Qed.
+
+Lemma numeric_restrict T R n ty e : R <> [] -> 0 < len T ->
+  numeric (T ++ R) = Ok (n, ty, e) -> n = len T -> ty <> ErrorToken ->
+  numeric (T ++ [0]) = Ok (n, ty, e).
+Proof.
+  intros HR HT H Hn Hty. unfold numeric in H |- *.
+  destruct T as [|t0 T]; [change (len (@nil Z)) with 0 in HT; lia|]. cbn [app] in H |- *.
+  rewrite pkl_cons_0 in H |- *. cbn [rbind] in H |- *.
+  change (t0 :: T ++ R) with ((t0 :: T) ++ R) in H. change (t0 :: T ++ [0]) with ((t0 :: T) ++ [0]).
+  set (TT := t0 :: T) in *. pose proof (len_nonneg T) as HT0.
+  assert (HTT : len TT = 1 + len T) by (unfold TT; apply len_cons).
+  destruct (t0 =? 48) eqn:E48.
+  - destruct (pkl (TT ++ R) 1) as [c| |] eqn:Ec; cbn [rbind] in H; try discriminate.
+    destruct (Z.eq_dec (len TT) 1) as [H1|H1].
+    + (* the token is "0" *)
+      rewrite pkl_at_end by lia. cbn [rbind]. cbn [Z.eqb orb andb Z.leb Z.compare]. 
+      change (0 =? 120) with false. change (0 =? 88) with false. change (0 =? 98) with false. change (0 =? 66) with false.
+      change (0 =? 111) with false. change (0 =? 79) with false. change (0 =? 110) with false. cbn [orb]. cbv iota.
+      change ((48 <=? 0) && (0 <=? 57)) with false. cbv iota.
+      assert (Hres : n = 1 /\ ty = IntegerToken /\ e = ENone \/ num_tail t0 (TT ++ R) 1 = Ok (n, ty, e)).
+      { destruct ((c =? 120) || (c =? 88)).
+        { left. unfold num_radix in H. crunch H; try (repeat split; congruence).
+          exfalso. pose proof (dos_loop_nonneg _ _ _ hex1_bs E0).
+          assert (n = 2 + 1 + a0 + (if a1 =? 110 then 1 else 0)) by congruence. destruct (a1 =? 110); lia. }
+        destruct ((c =? 98) || (c =? 66)).
+        { left. unfold num_radix in H. crunch H; try (repeat split; congruence).
+          exfalso. pose proof (dos_loop_nonneg _ _ _ bin1_bs E0).
+          assert (n = 2 + 1 + a0 + (if a1 =? 110 then 1 else 0)) by congruence. destruct (a1 =? 110); lia. }
+        destruct ((c =? 111) || (c =? 79)).
+        { left. unfold num_radix in H. crunch H; try (repeat split; congruence).
+          exfalso. pose proof (dos_loop_nonneg _ _ _ oct1_bs E0).
+          assert (n = 2 + 1 + a0 + (if a1 =? 110 then 1 else 0)) by congruence. destruct (a1 =? 110); lia. }
+        destruct (c =? 110); [exfalso; assert (n = 2) by congruence; lia|].
+        destruct ((48 <=? c) && (c <=? 57)); [exfalso; apply Hty; congruence|].
+        right. exact H. }
+      destruct Hres as [(-> & -> & ->)|Hres].
+      * unfold num_tail. rewrite pkl_skipz by lia. rewrite pkl_at_end by lia. cbn [rbind]. reflexivity.
+      * apply (num_tail_restrict t0 TT R 1 n ty e HR ltac:(lia) Hres Hn Hty).
+    + assert (H2 : 2 <= len TT) by lia.
+      xfer Ec.
+      destruct ((c =? 120) || (c =? 88)); [apply (num_radix_restrict _ _ _ _ _ _ _ hex1_bs HR H2 H Hn)|].
+      destruct ((c =? 98) || (c =? 66)); [apply (num_radix_restrict _ _ _ _ _ _ _ bin1_bs HR H2 H Hn)|].
+      destruct ((c =? 111) || (c =? 79)); [apply (num_radix_restrict _ _ _ _ _ _ _ oct1_bs HR H2 H Hn)|].
+      destruct (c =? 110); [exact H|].
+      destruct ((48 <=? c) && (c <=? 57)); [exact H|].
+      apply (num_tail_restrict t0 TT R 1 n ty e HR ltac:(lia) H Hn Hty).
+  - destruct (negb (t0 =? 46)).
+    + destruct (repl (dig_or_sep digit1) (TT ++ R)) as [m| |] eqn:Em; cbn [rbind] in H; try discriminate.
+      pose proof (dos_loop_nonneg _ _ _ digit1_bs Em) as Hm0.
+      pose proof (num_tail_ge _ _ _ _ _ _ H) as Hge.
+      change (TT ++ R) with (skipz 0 (TT ++ R)) in Em.
+      pose proof (dos_loop_part digit1 TT R 0 m digit1_bs HR ltac:(lia) Em ltac:(lia)) as Em'.
+      change (skipz 0 (TT ++ [0])) with (TT ++ [0]) in Em'. rewrite Em'. cbn [rbind].
+      apply (num_tail_restrict t0 TT R m n ty e HR ltac:(lia) H Hn Hty).
+    + apply (num_tail_restrict t0 TT R 0 n ty e HR ltac:(lia) H Hn Hty).
+Qed.
+
+(* --- comments ---------------------------------------------------------------------------------------- *)
+Lemma comment_restrict T R n ty e sl : R <> [] -> no_trunc T = true ->
+  comment (T ++ R) = Ok (n, ty, e, sl) -> n = len T -> ty <> ErrorToken ->
+  comment (T ++ [0]) = Ok (n, ty, e, sl).
+Proof.
+  intros HR Hnt H Hn Hty. unfold comment in H |- *.
+  destruct (pkl (T ++ R) 1) as [c| |] eqn:Ec; cbn [rbind] in H; try discriminate.
+  destruct (c =? 47) eqn:E47.
+  - destruct (slc (skipz 2 (T ++ R))) as [n'| |] eqn:Es; cbn [rbind] in H; try discriminate.
+    assert (Hnn : n = 2 + n') by congruence.
+    pose proof (slc_loop_nonneg _ _ _ Es) as Hn0.
+    xfer Ec. rewrite E47. rewrite skipz_app_le in Es |- * by lia.
+    assert (Hn' : n' = len (skipz 2 T)) by (rewrite len_skipz by lia; lia). rewrite Hn' in Es.
+    rewrite (slc_restrict _ _ HR (no_trunc_skipz 2 T Hnt ltac:(lia)) Es). cbn [rbind]. rewrite <- Hn'. exact H.
+  - destruct (c =? 42) eqn:E42; [|exfalso; apply Hty; congruence].
+    destruct (mlc_loop (length (T ++ R)) (skipz 2 (T ++ R))) as [[[n' ok] sl']| |] eqn:Em; cbn [rbind] in H; try discriminate.
+    destruct ok; [|exfalso; apply Hty; congruence].
+    assert (Hnn : n = 2 + n') by congruence.
+    destruct (mlc_loop_pos _ _ _ _ _ Em) as (Hn0 & _).
+    xfer Ec. rewrite E47, E42. rewrite skipz_app_le in Em |- * by lia.
+    rewrite (mlc_loop_restrict _ _ _ _ _ HR Em).
+    + cbn [rbind]. exact H.
+    + rewrite len_skipz by lia. lia.
+    + pose proof (length_skipz_le 2 T). rewrite app_length. cbn [length]. lia.
+Qed.
+
+Lemma html_comment_restrict plt T R n : R <> [] -> no_trunc T = true ->
+  html_comment plt (T ++ R) = Ok n -> n = len T -> 0 < n ->
+  html_comment plt (T ++ [0]) = Ok n.
+Proof.
+  intros HR Hnt H Hn Hpos. unfold html_comment in H |- *.
+  destruct (pkl (T ++ R) 0) as [c| |] eqn:E0; cbn [rbind] in H; try discriminate.
+  xfer E0.
+  match type of H with rbind ?e _ = _ => destruct e as [op| |] eqn:Eo; cbn [rbind] in H; try discriminate end.
+  destruct op.
+  - (* "<!--" *)
+    destruct (slc (skipz 4 (T ++ R))) as [n'| |] eqn:Es; cbn [rbind] in H; try discriminate.
+    assert (Hnn : n = 4 + n') by congruence. pose proof (slc_loop_nonneg _ _ _ Es) as Hn0.
+    destruct (c =? 60); [|discriminate].
+    destruct (pkl (T ++ R) 1) as [c1| |] eqn:E1; cbn [rbind] in Eo; try discriminate. xfer E1.
+    destruct (c1 =? 33); [|discriminate].
+    destruct (pkl (T ++ R) 2) as [c2| |] eqn:E2; cbn [rbind] in Eo; try discriminate. xfer E2.
+    destruct (c2 =? 45); [|discriminate].
+    destruct (pkl (T ++ R) 3) as [c3| |] eqn:E3; cbn [rbind] in Eo; try discriminate. xfer E3.
+    assert (Eo' : (c3 =? 45) = true) by congruence. rewrite Eo'. rewrite skipz_app_le in Es |- * by lia.
+    assert (Hn' : n' = len (skipz 4 T)) by (rewrite len_skipz by lia; lia). rewrite Hn' in Es.
+    rewrite (slc_restrict _ _ HR (no_trunc_skipz 4 T Hnt ltac:(lia)) Es). cbn [rbind]. rewrite <- Hn'. exact H.
+  - match type of H with rbind ?e _ = _ => destruct e as [cl| |] eqn:Ecl; cbn [rbind] in H; try discriminate end.
+    destruct cl; [|assert (n = 0) by congruence; lia].
+    destruct (slc (skipz 3 (T ++ R))) as [n'| |] eqn:Es; cbn [rbind] in H; try discriminate.
+    assert (Hnn : n = 3 + n') by congruence. pose proof (slc_loop_nonneg _ _ _ Es) as Hn0.
+    destruct (plt && (c =? 45)) eqn:Ep; [|discriminate].
+    assert (c = 45) by (apply andb_true_iff in Ep; lia). subst c.
+    change (45 =? 60) with false. cbv iota. cbn [rbind].
+    destruct (pkl (T ++ R) 1) as [c1| |] eqn:E1; cbn [rbind] in Ecl; try discriminate. xfer E1.
+    destruct (c1 =? 45); [|discriminate].
+    destruct (pkl (T ++ R) 2) as [c2| |] eqn:E2; cbn [rbind] in Ecl; try discriminate. xfer E2.
+    assert (Ecl' : (c2 =? 62) = true) by congruence. rewrite Ecl'. rewrite skipz_app_le in Es |- * by lia.
+    assert (Hn' : n' = len (skipz 3 T)) by (rewrite len_skipz by lia; lia). rewrite Hn' in Es.
+    rewrite (slc_restrict _ _ HR (no_trunc_skipz 3 T Hnt ltac:(lia)) Es). cbn [rbind]. rewrite <- Hn'. exact H.
+Qed.
